@@ -53,6 +53,11 @@ def replay (j : Json) : R Verdict := do
         if jsonable v && sortJ (toJson v) != sortJ back then dis := some "to_json of the accepted value differs from the model's toJson"
         if kind == "roundtrip" && sortJ back != sortJ doc then
           pf := ("C11", "value -> JSON -> value -> JSON is not the same JSON") :: pf
+        else if kind == "roundtrip" then
+          match (fieldD imp "backText").getStr?.toOption, (fieldD imp "guessText").getStr?.toOption with
+          | some bt, some gt => if bt != gt then
+              pf := ("C11", s!"value -> JSON -> value -> JSON is not the same JSON TEXT: {gt.take 120} became {bt.take 120}") :: pf
+          | _, _ => pure ()
     | .error _ =>
       tags := "impl:reject" :: tags
       match model with
